@@ -121,3 +121,20 @@ K2_TEXT = ("C01/K2 aggressive nomination: an agent first learnt a peer candidate
            "candidate was signalled), ranks / prunes that pair by the peer-reflexive priority and ends on a different nominated "
            "pair than its peer: both READY but selected pairs are not mirrored at quiescence "
            "(agent/conncheck.c priv_mark_pair_nominated / priv_prune_pending_checks / conn_check_update_selected_pair)")
+
+
+def run_corpus(exe, prop, ofail):
+    """replay committed witness scenarios (corpus/<prop>/*.scn): a crash / sanitizer abort is a violation"""
+    d = os.path.join(vlib.ROOT, "corpus", prop)
+    n = 0
+    if os.path.isdir(d):
+        for f in sorted(os.listdir(d)):
+            if not f.endswith(".scn"):
+                continue
+            script = [l.strip() for l in open(os.path.join(d, f)) if l.strip() and not l.startswith("#")]
+            out, err, rc = simlib.replay_script(exe, script)
+            n += 1
+            if rc != 0:
+                ofail.append({"why": f"witness corpus/{prop}/{f} crashes the agent (exit {rc})", "session": script,
+                              "stderr": err[-2000:]})
+    return n
